@@ -18,7 +18,8 @@ func init() {
 			"C05.2 the indexes move together: every successful return of table.addNode has passed both the bucket insertion and the addrs[addr][id] store, every return of dropNode both deletions; the bucket is buckets[bucketIndex(n.Id)] and the address key n.Addr.String() of the same n on both sides; " +
 			"C05.3 guards dominate insertion: bucket.AddNode only under id ≠ rootID ∧ GetNode(addr,id)=nil ∧ Len < k on the bucket it inserts into; table.addNode only under nodeIsBad(n)=false (which implies id ≠ own id, id ≠ 0) and with room in the bucket (Len < k, or the eviction loop ended because Len < k); k is the constant 8 stored once; rootID is the server's own ID; " +
 			"C05.4 Server.table, Server.transactions and the per-node liveness fields are only touched with Server.mu held (writes under the write lock); " +
-			"C05.5 reported numbers are derived from the entries on every call (Stats().Nodes/GoodNodes, NumNodes(), Nodes()): no cached counter; the iteration helpers visit every entry unless the callback asks to stop.",
+			"C05.5 reported numbers are derived from the entries on every call (Stats().Nodes/GoodNodes, NumNodes(), Nodes()): no cached counter; the iteration helpers visit every entry unless the callback asks to stop; IsGood(n) implies not-bad and has-responded; " +
+			"C05.6 the address equality of the duplicate test (bucket.GetNode) is the projection that keys the address index (Addr.String()), so 'same address' means the same in both indexes.",
 		NotDecided: "that bucketIndex computes the shared-prefix length (C18.4 decides its shape only), equality of the two indexes after arbitrary histories (follows by induction from C05.1+C05.2), time-dependent goodness.",
 		Assume:     []string{"Go map semantics; bucket.nodes keys are *node pointers created once per admitted contact"},
 		Rules: []*Rule{
